@@ -235,7 +235,12 @@ def jug_cli(args, cwd, timeout=120, env_extra=None):
     env.update(env_extra or {})
     env['PYTHONPATH'] = core.REPO + os.pathsep + os.path.join(core.VERIF, 'harness') + os.pathsep + env.get('PYTHONPATH', '')
     env['HOME'] = cwd
-    return subprocess.run([sys.executable, '-c', 'from jug.jug import main; main()'] + args, cwd=cwd, env=env, stdout=subprocess.PIPE, stderr=subprocess.STDOUT, text=True, timeout=timeout)
+    try:
+        return subprocess.run([sys.executable, '-c', 'from jug.jug import main; main()'] + args, cwd=cwd, env=env, stdout=subprocess.PIPE, stderr=subprocess.STDOUT, text=True, timeout=timeout)
+    except subprocess.TimeoutExpired as e:
+        # a command that does not come to an end is an observation, not a harness failure: exit status 124 (as timeout(1) reports it) and what it printed so far
+        out = e.stdout.decode('utf-8', 'replace') if isinstance(e.stdout, bytes) else (e.stdout or '')
+        return subprocess.CompletedProcess(e.cmd, 124, out[-2000:] + '\n[jug %s did not end within %d s]' % (' '.join(args[:1]), timeout), None)
 
 
 def jug_cli_popen(args, cwd):
